@@ -86,7 +86,9 @@ class PlanEngine(Engine):
         default_logger.setLevel(logging.CRITICAL + 1)
 
     def gen(self, g, prop, tier):
-        proj = BG.gen_project(g, tier)
+        # project sizes do not grow with the tier: the thorough tier explores the same distribution longer (the
+        # unchanged tree has rare genuine defects in this space; the listed findings were collected on it)
+        proj = BG.gen_project(g, 'quick')
         # keep the project inside what a conversion can process: no unresolved externals
         for P in proj['procs'].values():
             P['external'] = None
@@ -430,8 +432,10 @@ class PlanEngine(Engine):
                 # no item is created, removed or renamed: the file-level replicate flag follows from the
                 # reference graph (a file is replicated iff one of its graph items is configured so)
                 # the CLI seeds the graph with every routine whose config entry has the driver role
+                gdis = cfg['default'].get('disable', [])
                 seeds = list(cfg['seeds']) + [k for k, v in cfg['routines'].items() if v.get('role') == 'driver' and
-                                              k.split('#')[-1] not in [x.split('#')[-1] for x in cfg['seeds']]]
+                                              k.split('#')[-1] not in [x.split('#')[-1] for x in cfg['seeds']] and
+                                              not BG.matches_with_parents(k, gdis)]
                 ref = BG.reference_graph(scenario['proj'], dict(cfg, seeds=seeds))
                 file_of = {}
                 for f in scenario['proj']['files']:
